@@ -110,6 +110,12 @@ class Ctx:
         from gen_model import generate
         g = {'ok': True, 'reason': '', 'detail': '', 'axioms': {}, 'regen': 'identical', 'where': 'in-place'}
         self.gate = g
+        # the modules this property's obligations live in: its own Props file plus the Props files of other properties it
+        # cites (everything else an obligation needs is imported by those).  Only these are built and audited, so that a
+        # proof of another property that no longer checks does not take this check down with it.
+        mods = sorted({'Cvise.Props.' + self.prop} | {'Cvise.Props.' + o.split('.')[1] for o in obligations
+                                                       if re.match(r'Cvise\.C\d\d\.', o)})
+        g['modules'] = mods
         try:
             gen, stale = generate(REPO)
         except Exception as e:  # translator met something it cannot read
@@ -140,7 +146,7 @@ class Ctx:
                 # fall back to the committed model for the search
                 self.lean_root = LEAN
                 return g
-            r = subprocess.run(['lake', 'build', 'Cvise'], cwd=root, capture_output=True, text=True)
+            r = subprocess.run(['lake', 'build'] + mods, cwd=root, capture_output=True, text=True)
             if r.returncode != 0:
                 g.update(ok=False, reason='proof-build', detail=tail_errors(r.stdout + r.stderr, root))
                 return g
@@ -155,7 +161,7 @@ class Ctx:
             return g
         # axiom audit
         audit = self.scratch / 'Audit.lean'
-        audit.write_text('import Cvise\n' + ''.join(f'#print axioms {o}\n' for o in obligations))
+        audit.write_text(''.join(f'import {m}\n' for m in mods) + ''.join(f'#print axioms {o}\n' for o in obligations))
         r = subprocess.run(['lake', 'env', 'lean', str(audit)], cwd=self.lean_root, capture_output=True, text=True)
         out = r.stdout + r.stderr
         for o in obligations:
